@@ -23,6 +23,7 @@ import (
 	"math/rand"
 	"os"
 	"os/exec"
+	"runtime"
 	"sort"
 	"strings"
 	"sync"
@@ -902,6 +903,18 @@ func c07Corpus(cfg *config) error {
 
 func c07Worker(_ *config) error {
 	log.SetOutput(io.Discard)
+	// a manager that starts clients without end must not take the machine down: the worker gives up at 3 GiB of
+	// heap (its case is then reported as one the worker did not survive)
+	go func() {
+		var ms runtime.MemStats
+		for {
+			time.Sleep(300 * time.Millisecond)
+			runtime.ReadMemStats(&ms)
+			if ms.HeapAlloc > 3<<30 {
+				os.Exit(3)
+			}
+		}
+	}()
 	in := bufio.NewReaderSize(os.Stdin, 1<<20)
 	out := bufio.NewWriter(os.Stdout)
 	dec := json.NewDecoder(in)
